@@ -22,7 +22,8 @@ PROP = "C15"
 HEADER = "Require Import PF.Lib.Tensor PF.Model.Layers PF.Model.LayersRun."
 MODEL_TARGETS = ["Model/LayersRun.vo"]
 SHARD = 25
-RULE = ("one case = (layer kind, hyper-parameters channels/heads/columns/prompts/layers, batch size 0-4, seed, column "
+RULE = ("one case = (layer kind, every public constructor argument drawn: channels/heads/columns/prompts/layers/"
+        "out_channels/activation relu|gelu/feedforward_channels/dropouts/num_groups, batch size 0-4, seed, column "
         "permutation, row index list); distinct = distinct (kind, hyper-parameters, batch size); non-trivial = forward "
         "succeeded on a non-empty batch and a full footprint matrix was measured")
 TRUSTED = [
@@ -80,9 +81,14 @@ def gen_case(rng, kind, tier):
     B = rng.randint(1, 4)
     perm = list(range(cols))
     rng.shuffle(perm)
-    case = {"kind": kind, "channels": ch, "heads": heads, "cols": cols, "B": B, "prompts": rng.pick([2, 2, 4]),
+    prompts = rng.pick([2, 2, 4, 6])
+    case = {"kind": kind, "channels": ch, "heads": heads, "cols": cols, "B": B, "prompts": prompts,
             "layers": rng.randint(1, 2), "out": rng.randint(1, 3), "seed": rng.randrange(1 << 30), "perm": perm,
-            "idx": [rng.randrange(B) for _ in range(rng.randint(1, 5))], "param_scale": rng.pick([0.3, 1.0])}
+            "idx": [rng.randrange(B) for _ in range(rng.randint(1, 5))], "param_scale": rng.pick([0.3, 1.0]),
+            # the remaining public constructor arguments, away from their defaults
+            "activation": rng.pick(["relu", "gelu"]), "ff_channels": rng.pick([None, ch // 2, 2 * ch]),
+            "dropout": rng.pick([0.0, 0.2, 0.4]), "dropout2": rng.pick([0.0, 0.3]), "dropout3": rng.pick([0.0, 0.3]),
+            "groups": rng.pick([g for g in (1, 2, prompts) if prompts % g == 0])}
     return case
 
 
@@ -100,15 +106,18 @@ def build_layer(case):
     from torch_frame.nn import (ExcelFormerConv, ExcelFormerDecoder, FTTransformerConvs, TabTransformerConv,
                                 TromptConv, TromptDecoder)
     k, ch = case["kind"], case["channels"]
+    dr, dr2, dr3 = case.get("dropout", 0.2), case.get("dropout2", 0.2), case.get("dropout3", 0.2)
     if k == "tab_conv":
-        m = TabTransformerConv(channels=ch, num_heads=case["heads"], attn_dropout=0.2, ffn_dropout=0.2)
+        m = TabTransformerConv(channels=ch, num_heads=case["heads"], attn_dropout=dr, ffn_dropout=dr2)
     elif k == "ft_convs":
-        m = FTTransformerConvs(channels=ch, num_layers=case["layers"], nhead=case["heads"])
+        m = FTTransformerConvs(channels=ch, feedforward_channels=case.get("ff_channels"), num_layers=case["layers"],
+                               nhead=case["heads"], dropout=dr, activation=case.get("activation", "relu"))
     elif k == "excel_conv":
-        m = ExcelFormerConv(channels=ch, num_cols=case["cols"], num_heads=case["heads"], diam_dropout=0.2,
-                            aium_dropout=0.2, residual_dropout=0.2)
+        m = ExcelFormerConv(channels=ch, num_cols=case["cols"], num_heads=case["heads"], diam_dropout=dr,
+                            aium_dropout=dr2, residual_dropout=dr3)
     elif k == "trompt_conv":
-        m = TromptConv(channels=ch, num_cols=case["cols"], num_prompts=case["prompts"])
+        m = TromptConv(channels=ch, num_cols=case["cols"], num_prompts=case["prompts"],
+                       num_groups=case.get("groups", 2))
     elif k == "trompt_decoder":
         m = TromptDecoder(in_channels=ch, out_channels=case["out"], num_prompts=case["prompts"])
     elif k == "excel_decoder":
@@ -492,7 +501,8 @@ def nontrivial_sig(case, obs):
     if not obs.get("ok") or not obs["colfp"]:
         return None
     return json.dumps([case["kind"], case["channels"], case["heads"], case["cols"], case["prompts"], case["layers"],
-                       case["out"], case["B"]])
+                       case["out"], case["B"], case.get("activation"), case.get("ff_channels"), case.get("groups"),
+                       case.get("dropout")])
 
 
 def stats(cases, obss):
@@ -501,6 +511,12 @@ def stats(cases, obss):
         if c is None:
             continue
         d["total"] += 1
+        used = {"tab_conv": ("dropout", "dropout2"), "ft_convs": ("activation", "ff_channels", "dropout", "layers"),
+                "excel_conv": ("dropout", "dropout2", "dropout3"), "trompt_conv": ("groups", "prompts"),
+                "trompt_decoder": ("prompts", "out"), "excel_decoder": ("out",)}[c["kind"]]
+        for a in used:
+            dd = d.setdefault(f"arg:{c['kind']}.{a}", {})
+            dd[str(c.get(a))] = dd.get(str(c.get(a)), 0) + 1
         for k, v in (("kinds", c["kind"]), ("B", c["B"]), ("cols", c["cols"]), ("heads", c["heads"])):
             d[k][str(v)] = d[k].get(str(v), 0) + 1
         if not o.get("ok"):
@@ -601,6 +617,7 @@ def selftest_discrimination(rng):
     """The correspondence must discriminate: measured footprints of the TabTransformer layer must fail against the
     ExcelFormer model and vice versa, and against the right model with a wrong head geometry."""
     base = {"channels": 8, "heads": 4, "cols": 3, "B": 2, "prompts": 2, "layers": 1, "out": 2, "perm": [2, 0, 1],
+            "dropout": 0.2, "dropout2": 0.2, "dropout3": 0.2,
             "idx": [1, 0], "param_scale": 0.3}
     ct = dict(base, kind="tab_conv", seed=rng.randrange(1 << 30))
     ce = dict(base, kind="excel_conv", seed=rng.randrange(1 << 30))
@@ -652,6 +669,13 @@ def sanity(cases, obss):
     elif d["max_abs_attention_score"] > SCORE_BOUND:
         probs.append(f"max |attention score| {d['max_abs_attention_score']:.3g} exceeds the bound {SCORE_BOUND} under which "
                      f"the causality theorem (H_mask_kills) is claimed")
+    for key, vals in d.items():
+        if key.startswith("arg:") and len(vals) < 2:
+            probs.append(f"constructor argument {key[4:]} takes a single value {list(vals)}")
+    if d.get("arg:ft_convs.activation", {}).get("gelu", 0) == 0:
+        probs.append("FTTransformerConvs never built with a non-default activation")
+    if set(d.get("arg:trompt_conv.groups", {})) <= {"2"}:
+        probs.append("TromptConv never built with a non-default num_groups")
     if d.get("core_probes", 0) == 0:
         probs.append("the channel-level attention core was never probed")
     if d.get("rejection_probes", 0) == 0:
